@@ -164,8 +164,7 @@ let hex_of bs =
   Buffer.contents b
 
 let guard_name = function
-  | G_mod_zero -> "mod_zero" | G_mod_overflow -> "mod_overflow" | G_shift_count -> "shift_count"
-  | G_float_to_int -> "float_to_int" | G_float_to_byte -> "float_to_byte" | G_repeat_negative -> "repeat_negative"
+  | G_repeat_negative -> "repeat_negative"
   | G_bad_codepoint -> "bad_codepoint" | G_dangling_ref -> "dangling_ref" | G_ill_typed -> "ill_typed"
   | G_out_of_fragment -> "out_of_fragment"
 
@@ -211,6 +210,7 @@ let () =
         let e = p_expr () in
         (match lower_top pow_oracle log10_oracle fmt_oracle e with
          | TieOk bs -> Printf.printf "R %s K:ok %s\n" id (hex_of bs)
+         | TieErr -> Printf.printf "R %s K:err -\n" id
          | TiePoison -> Printf.printf "R %s K:poison -\n" id
          | TieReject -> Printf.printf "R %s K:reject -\n" id
          | TieCrash -> Printf.printf "R %s K:crash -\n" id
